@@ -19,7 +19,8 @@ Kinds == {"minCount", "maxCount", "exactCount", "minLength", "maxLength", "exact
           "containsAll", "containsSome", "minInclusive", "maxInclusive", "minExclusive", "maxExclusive",
           "minInclusiveFloat", "maxExclusiveFloat", "datatype", "lessThanProperty", "lessThanOrEqualsToProperty",
           "equalsToProperty", "disjointWithProperty", "uniqueValues", "nested", "atLeast", "atMost"}
-PathShapes == {"pred", "seq", "alt", "inverse", "altInSeq", "seqInAlt", "type", "altMixedInverse", "seq3", "altOfAlt"}
+PathShapes == {"pred", "seq", "alt", "inverse", "altInSeq", "seqInAlt", "type", "altMixedInverse", "seq3", "altOfAlt",
+               "underscore"}
 Contexts == {"plain", "not", "or", "and", "if", "then", "else", "notIfThenElse"}
 Siblings == {1, 2, 3, 5, 8, 11, 12, 13, 20, 30}
 \* OPA compile time grows ~3.5x per nesting level (measured: depth 8 3 s, 9 11 s, 10 40 s): depth is capped at 8;
